@@ -116,6 +116,10 @@ type Plan struct {
 	Yield bool // make every request a vsched scheduling point
 	// HideInList: keys the (cached) client's List does not show yet in this pass.
 	HideInList []kmodel.Key
+	// Interfere, when set, runs just before request number InterfereAt of the pass is sent
+	// (another actor's write landing between two calls of the pass).
+	Interfere   func(w *World)
+	InterfereAt int
 }
 
 type crashSentinel struct{}
@@ -155,6 +159,7 @@ func (p *Pass) Trace() []string {
 }
 
 type hook struct {
+	w     *World
 	pass  *Pass
 	plan  *Plan
 	dead  bool
@@ -170,6 +175,9 @@ func (h *hook) Before(r *kmodel.Request) error {
 	}
 	idx := h.count
 	h.count++
+	if h.plan != nil && h.plan.Interfere != nil && idx == h.plan.InterfereAt {
+		h.plan.Interfere(h.w)
+	}
 	h.pass.Reqs = append(h.pass.Reqs, r)
 	if h.plan != nil && h.plan.Fault != NoFault && idx == h.plan.FaultAt {
 		switch h.plan.Fault {
@@ -241,7 +249,7 @@ type Env struct {
 
 // NewEnv builds clients and the real dynamic cache for one pass over w.
 func (w *World) NewEnv(actor string, pass *Pass, plan *Plan) *Env {
-	h := &hook{pass: pass, plan: plan}
+	h := &hook{w: w, pass: pass, plan: plan}
 	base := &kmodel.Client{S: w.S, Sch: Scheme, Map: Mapper, Hook: h, Actor: actor}
 	if plan != nil && len(plan.HideInList) > 0 {
 		base.ListHide = map[kmodel.Key]bool{}
